@@ -162,3 +162,90 @@ func VerifC17_PrefixRewrite() {
 	verif.Assert(ok && orig == path, "original path must be recorded")
 	verif.Cover("end")
 }
+
+// VerifC17_HeaderAddList: a headers_to_add list of several entries at one
+// level is applied entry by entry in configuration order; each entry appends
+// ("old,new") when its append flag is true or unset (the documented default)
+// and the header already has a non-empty value, and overwrites otherwise.
+// Keys are configured in mixed case and matched in lower case.
+func VerifC17_HeaderAddList() {
+	response := verif.Choose("direction", 2) == 1
+	n := 2 + verif.Choose("entries", verif.Param("addlist", 1, 2))
+	var adds []*v2.HeaderValueOption
+	type op struct {
+		key, val string
+		app      bool
+	}
+	var ops []op
+	for i := 0; i < n; i++ {
+		o := op{key: zzHdrKeys[verif.Choose("key", 2)], val: string(rune('a' + i)), app: true}
+		opt := &v2.HeaderValueOption{Header: &v2.HeaderValue{Key: "K" + o.key[1:], Value: o.val}}
+		switch verif.Choose("append", 3) { // unset, true, false
+		case 1:
+			t := true
+			opt.Append = &t
+		case 2:
+			f := false
+			opt.Append = &f
+			o.app = false
+		}
+		adds = append(adds, opt)
+		ops = append(ops, o)
+	}
+	r := v2.Router{}
+	r.Match.Prefix = "/"
+	r.Route.ClusterName = "c"
+	vh := v2.VirtualHost{Name: "vh", Domains: []string{"*"}}
+	cfg := &v2.RouterConfiguration{}
+	level := verif.Choose("level", 3)
+	switch {
+	case level == 0 && response:
+		r.Route.ResponseHeadersToAdd = adds
+	case level == 0:
+		r.Route.RequestHeadersToAdd = adds
+	case level == 1 && response:
+		vh.ResponseHeadersToAdd = adds
+	case level == 1:
+		vh.RequestHeadersToAdd = adds
+	case response:
+		cfg.ResponseHeadersToAdd = adds
+	default:
+		cfg.RequestHeadersToAdd = adds
+	}
+	vh.Routers = []v2.Router{r}
+	cfg.VirtualHosts = []v2.VirtualHost{vh}
+	rs, err := NewRouters(cfg)
+	verif.Assume(err == nil)
+	ctx := variable.NewVariableContext(context.Background())
+	variable.SetString(ctx, types.VarPath, "/x")
+	headers := protocol.CommonHeader{}
+	want := map[string]string{}
+	for _, k := range zzHdrKeys {
+		if verif.Choose("init_"+k, 2) == 1 {
+			headers[k], want[k] = "i", "i"
+		}
+	}
+	route := rs.MatchRoute(ctx, headers)
+	verif.Assert(route != nil, "catch-all route must match")
+	if route == nil {
+		return
+	}
+	if response {
+		route.RouteRule().FinalizeResponseHeaders(ctx, headers, nil)
+	} else {
+		route.RouteRule().FinalizeRequestHeaders(ctx, headers, nil)
+	}
+	for _, o := range ops {
+		v := o.val
+		if old, ok := want[o.key]; ok && len(old) > 0 && o.app {
+			v = old + "," + o.val
+		}
+		want[o.key] = v
+	}
+	for _, k := range zzHdrKeys {
+		gv, gok := headers[k]
+		wv, wok := want[k]
+		verif.Assert(gok == wok && gv == wv, "header "+k+" after a multi-entry headers_to_add list differs from entry-by-entry append/overwrite semantics")
+	}
+	verif.Cover("end")
+}
